@@ -229,6 +229,67 @@ fn check_year_object(y: i64, cfg: &Cfg, log: &mut Log) {
   }
 }
 
+/// one history operation at instant a: the day view of its civil day, the instant view, or the month object
+fn history_op(a: i64, rng: &mut Rng) -> (String, Vec<String>, u64) {
+  let t = terms();
+  let n = a.div_euclid(86400);
+  let mut bad = vec![];
+  match rng.below(5) {
+    0 | 1 => {
+      let label = format!("day-view({})", cal::fmt_dn(n));
+      let g = match t.governing_day(n) {
+        Some(g) => t.v[g],
+        None => return (label, bad, 0),
+      };
+      let (sy, k, yp, mp) = pillars_of(&g);
+      let d = sd_of_dn(n).get_sixty_cycle_day();
+      let m = d.get_sixty_cycle_month();
+      let got = (d.get_year().get_index() as i64, d.get_month().get_index() as i64, m.get_sixty_cycle_year().get_year() as i64, m.get_index_in_year() as i64);
+      if got != (yp, mp, sy, k) {
+        bad.push(format!("{} {} (year {} month {}), expected {} {} (year {} month {})", pillar_name(got.0), pillar_name(got.1), got.2, got.3, pillar_name(yp), pillar_name(mp), sy, k));
+      }
+      (label, bad, 1)
+    }
+    2 | 3 => {
+      let label = format!("instant-view({})", fmt_abs(a));
+      let gi = match t.governing_sec(a) {
+        Some(g) => g,
+        None => return (label, bad, 0),
+      };
+      let g = t.v[gi];
+      // not judged within 2 s of a term instant (second rounding)
+      if a - g.sec < 2 || (gi + 1 < t.v.len() && t.v[gi + 1].sec - a < 2) {
+        return (label, bad, 0);
+      }
+      let (_, _, yp, mp) = pillars_of(&g);
+      let h = st_of_abs(a).get_sixty_cycle_hour();
+      let got = (h.get_year().get_index() as i64, h.get_month().get_index() as i64);
+      if got != (yp, mp) {
+        bad.push(format!("{} {}, expected {} {} (term ({}, {}) began {})", pillar_name(got.0), pillar_name(got.1), pillar_name(yp), pillar_name(mp), g.y, g.i, fmt_abs(g.sec)));
+      }
+      (label, bad, 1)
+    }
+    _ => {
+      let g = match t.governing_day(n) {
+        Some(g) => t.v[g],
+        None => return ("month-object".into(), bad, 0),
+      };
+      let (sy, k, yp, mp) = pillars_of(&g);
+      let label = format!("month-object({}, {})", sy, k);
+      if sy < 1 || sy > 9998 {
+        return (label, bad, 0);
+      }
+      let m = SixtyCycleMonth::from_index(sy as isize, k as isize);
+      let jie = t.v[crate::model::terms::Terms::idx(sy, 3) + 2 * k as usize];
+      let got = (m.get_sixty_cycle().get_index() as i64, m.get_year().get_index() as i64, dn_of(&m.get_first_day().get_solar_day()));
+      if got != (mp, yp, Some(jie.dn)) {
+        bad.push(format!("{} of year {} first day {:?}, expected {} of year {} first day {}", pillar_name(got.0), pillar_name(got.1), got.2.map(cal::fmt_dn), pillar_name(mp), pillar_name(yp), cal::fmt_dn(jie.dn)));
+      }
+      (label, bad, 1)
+    }
+  }
+}
+
 pub fn run(cfg: &Cfg) -> (Log, Meta) {
   crate::util::set_thread_cap(8);
   let mut log = Log::new();
@@ -260,6 +321,10 @@ pub fn run(cfg: &Cfg) -> (Log, Meta) {
     Tier::Quick => (1..=9998).filter(|y| y % 10 == (cfg.seed % 10) as i64 || *y < 5).collect(),
   };
   log.merge(par_range(obj_years.len(), 8, |i, l| check_year_object(obj_years[i], cfg, l)));
+  let nh = cfg.tier.pick(30_000usize, 500_000usize);
+  // from 0001-01-07: the days before are the listed year-0 finding
+  log.merge(par_range(nh, 100, |i, l| crate::history::instant_walk("C08", "a sequence of year/month pillar look-ups at related instants on one thread", i, cfg.seed, (FIRST + 6) * 86400, (LAST - 40) * 86400, l, history_op)));
+  log.floor("history.answers_judged", cfg.tier.pick(250_000, 4_000_000));
   let seen = PAIRS.iter().filter(|p| p.load(Ordering::Relaxed)).count() as u64;
   log.count("pairs.distinct_legal_year_month_pairs_seen", seen);
   log.floor("pairs.distinct_legal_year_month_pairs_seen", cfg.tier.pick(100, 700));
@@ -269,9 +334,11 @@ pub fn run(cfg: &Cfg) -> (Log, Meta) {
   log.floor("instant.day_view_agreement", cfg.tier.pick(1_000, 20_000));
   let meta = Meta {
     rule: format!(
-      "day view: every civil date of {} years (year pillar, sexagenary year number, month pillar, month number, legality of the pair); time view: the second before/of/after each of the 12 Jie instants, 10 seeded-random instants and 3 day-vs-time agreements per year of the same years; objects: month list, pillars, from_index, first day = Jie day and next(n) (9 step counts) for the 12 months of {} sexagenary years. Oracle: term list + Lichun/Jie/Five-Tigers rule. Non-trivial = Jie days and the seconds around Jie instants (counted); distinct legal pairs seen are counted ({} of 720).",
+      "day view: every civil date of {} years (year pillar, sexagenary year number, month pillar, month number, legality of the pair); time view: the second before/of/after each of the 12 Jie instants, 10 seeded-random instants and 3 day-vs-time agreements per year of the same years; objects: month list, pillars, from_index, first day = Jie day and next(n) (9 step counts) for the 12 months of {} sexagenary years; histories: {} seeded single-thread sequences of 6..16 look-ups (day view, instant view, month object by index) at related instants - {}. Oracle: term list + Lichun/Jie/Five-Tigers rule. Non-trivial = Jie days and the seconds around Jie instants (counted); distinct legal pairs seen are counted ({} of 720).",
       years.len(),
       obj_years.len(),
+      nh,
+      crate::history::WALK_TEXT,
       seen
     ),
     assumptions: vec!["term instants are the library's own; rule encoding (Five Tigers rhyme) is the harness' own and self-tested on AD 1984/2024".into()],
